@@ -116,6 +116,37 @@ def big_program(rnd, nfd, nreg):
     return P
 
 
+def timer_program(rnd):
+    """many pending timers (the heap under the timer queue several levels deep), deadlines with ties, cancels and resets
+    of arbitrary ones from outside and from inside timer callbacks: deadline order under deletion from the middle"""
+    P = Prog(rnd.choice([1, 2]))
+    n = rnd.randint(12, 70)
+    slots = []
+    for i in range(n):
+        sub = []
+        if slots and rnd.random() < 0.25:
+            sub.append("cancel %d" % rnd.choice(slots))
+        if slots and rnd.random() < 0.1:
+            sub.append("reset %d" % rnd.choice(slots))
+        s = P.slot(sub, 0)
+        slots.append(s)
+        us = rnd.choice([rnd.randrange(0, 20000), rnd.randrange(0, 2000000), rnd.choice([1000, 2000, 5000])])
+        P.main.append("reg_timer %d %d %d" % (s, us // 1000000, us % 1000000))
+        if rnd.random() < 0.15:
+            P.main.append("tick 0 %d" % rnd.randrange(1, 3000))
+    for _ in range(rnd.randint(1, n // 2)):
+        P.main.append("%s %d" % (rnd.choice(["cancel", "cancel", "cancel", "reset"]), rnd.choice(slots)))
+        if rnd.random() < 0.1:
+            P.main.append("run")
+    for _ in range(n):
+        if rnd.random() < 0.3:
+            P.main.append("tick 0 %d" % rnd.randrange(1, 400000))
+        if rnd.random() < 0.2:
+            P.main.append("%s %d" % (rnd.choice(["cancel", "reset"]), rnd.choice(slots)))
+        P.main.append("run")
+    return P
+
+
 # ---------------------------------------------------------------------------
 # programs from behaviours of specs/events/EventsImpl.tla (GEN = TRUE)
 MASK = {"IN": 1, "OUT": 2, "HUP": 8, "ERR": 4}
